@@ -55,7 +55,7 @@ def check_tomography(case, want_vec=False):
                 pw = [(1.0, dense.run(mops, n))]
             else:
                 pw = [(w, dense.run(mops, n, psi=psi)) for (w, psi) in comps]
-            counts.append(tomo.exact_counts(pw, n, rng))
+            counts.append(tomo.rescale_counts(tomo.exact_counts(pw, n, rng), case.get("zero_seed", 0) // 3 + len(counts)))
         fitter = L.tomo.FullStateTomographyFitter(tomo.FakeResult(counts), circs)
         ev_raw = fitter.expectation_values()
         dm = np.asarray(fitter.density_matrix())
@@ -147,12 +147,14 @@ def shard_rank(arg):
     import hypothesis
     from hypothesis import given, settings, HealthCheck, Phase
     vec_rows = []
+    dig = [0]
 
     @hypothesis.seed(seed)
     @settings(max_examples=count, database=None, deadline=None, phases=[Phase.generate], suppress_health_check=list(HealthCheck))
     @given(tomo.state_ops_strategy(n, max_len=12))
     def t(ops):
         case = {"n": n, "connectivity": name, "components": [{"w": [1, 1], "ops": ops}], "zero_seed": len(vec_rows)}
+        dig[0] = fw.h64(dig[0], repr(case))
         fails, want = check_tomography(case)
         nt = (n, name, repr(ops)) if (want is not None and interesting(want, n)) else None
         rep.case(nt, None)
@@ -165,6 +167,7 @@ def shard_rank(arg):
     t()
     rank = int(np.linalg.matrix_rank(np.array(vec_rows), tol=1e-8)) if vec_rows else 0
     rep.extra["operator_space_rank"] = {f"{n}-{name}": {"rank": rank, "of": 4 ** n, "states": len(vec_rows)}}
+    rep.extra["generation_digests"] = {f"rank-{n}-{name}": dig[0]}
     return rep
 
 
